@@ -14,6 +14,7 @@ Journal records (appended by the bodies and by the call / step sites inside them
     ("XS", m, excname, owner)               site (in the body of call `owner`): the call whose E is journal[m] ended by exception
     ("YF", cid, m)                          right before `yield from`: the generator whose E will be journal[m] yields through call cid
     ("RZ", cid)                             right before the body raises by itself
+    ("EU", hidx, (callee, args, kwargs))    site: an exception is about to be thrown into handle hidx, which has not started
     ("TH", hidx) / ("TE", hidx)             site: around generator.throw() on handle hidx (the first yield in between is throw()'s result)
     ("XH", hidx, excname, at_yield, owner)  site: stepping handle hidx propagated an exception
     ("XC", hidx) / ("XD", hidx)             site: suspended handle closed / dropped (GeneratorExit at the yield)
